@@ -59,6 +59,13 @@ FIRST_MISS = {
  "C12-10": "registration lists that overlap with what is registered, or with themselves",
  "C19-10": "an empty area early in the area list of fuzz cases",
  "C20-10": "single instructions with only the registers they name (iced's used-register analysis) ever written",
+ "C01-11": "code patched between steps by the host, and by the program itself (an instruction is what the bytes at RIP say now)",
+ "C04-12": "a stack at the very bottom of the address space (RSP 0..0x18)",
+ "C06-12": "FS/GS bases that are not 16-byte aligned",
+ "C08-12": "growth exactly up to / one byte into the following area",
+ "C09-11": "instructions whose bytes continue in an adjacent area (any mask)",
+ "C09-12": "stores made by the built-in syscall handlers into non-writable memory (pipe read into code / read-only data)",
+ "C10-12": "ELF loads in the C10 stream (exact area extents, allocations right behind each)",
  "C13-9": "small areas in the middle of a page where the heap search starts (added before the first attempt)",
  "C13-10": "handler registration in two calls with overlapping lists (added before the first attempt)",
  "C17-9": "all stack-search candidates below 2^32 occupied (added before the first attempt)",
